@@ -1,7 +1,7 @@
 (* C15 non-vacuity: concrete inputs meeting the hypotheses of the theorems in
    Props.v, and concrete instances of the abstract codings / primitives that
    satisfy the section hypotheses (so the hypotheses are consistent). *)
-From CJ Require Import Common.Base Common.BaseProofs C15.Model C15.Proofs C15.ModelName C15.ProofsName.
+From CJ Require Import Common.Base Common.BaseProofs C15.Model C15.Proofs C15.ModelName C15.ProofsName C15.ModelObf C15.ProofsObf.
 From Coq Require Import Lia ZifyN ZifyNat ZifyBool.
 Ltac Zify.zify_post_hook ::= Z.div_mod_to_equations.
 
@@ -66,3 +66,57 @@ Example ex_request_name :
   exists nm, request_name (fun q => lower (toy_enc q)) [[116]; [101; 120]] [1; 2; 254] = Ok nm /\
              name_payload toy_dec [[116]; [101; 120]] nm = Some [1; 2; 254].
 Proof. eexists. split; vm_compute; reflexivity. Qed.
+
+(* ---- obfuscators ---- *)
+Example ex_xor : exists c, xor_obfuscate [10; 20; 30] [1; 2; 3] = Some c /\ xor_reveal c = Some [1; 2; 3].
+Proof. eexists. split; vm_compute; reflexivity. Qed.
+Example ex_xor_fresh : exists c1 c2, xor_obfuscate [10] [1] = Some c1 /\ xor_obfuscate [11] [1] = Some c2 /\ c1 <> c2.
+Proof. do 2 eexists. repeat split; try (vm_compute; reflexivity). discriminate. Qed.
+
+(* stand-in primitives that satisfy every law in crypto_laws: the laws are jointly satisfiable,
+   so the CTR/GCM theorems are not vacuous *)
+Definition pad32 (a : bytes) : bytes := firstn 32 (a ++ repeat 0 32).
+Definition t_mask (a : bytes) : bytes := upd31 clear_hi (pad32 a).
+Definition t_sbm (a : bytes) : option (bytes * bytes) := if nth 0 a 0 =? 7 then None else Some (t_mask a, t_mask a).
+Definition t_r2p (r : bytes) : bytes := r.
+Definition t_x (k p : bytes) : option bytes := Some (xor_bytes (t_mask k) p).
+Definition t_sha (b : bytes) : bytes := b.
+Definition t_ctr (k iv m : bytes) : bytes := map (N.lxor (nth 0 k 0 + nth 0 iv 0)) m.
+Definition t_seal (k n m : bytes) : bytes := m ++ repeat (nth 0 k 0) 16.
+Definition t_open (k n c : bytes) : option bytes := if blen c <? 16 then None else Some (take (blen c - 16) c).
+
+Lemma pad32_length a : length (pad32 a) = 32%nat.
+Proof. unfold pad32. rewrite firstn_length, app_length, repeat_length. lia. Qed.
+Lemma t_mask_length a : length (t_mask a) = 32%nat.
+Proof. apply upd31_length, pad32_length. Qed.
+Lemma xor_bytes_comm a b : xor_bytes a b = xor_bytes b a.
+Proof. revert b; induction a as [|x a IH]; intros [|y b]; cbn; try reflexivity. rewrite IH, N.lxor_comm. reflexivity. Qed.
+
+Lemma toy_laws : crypto_laws t_sbm t_r2p t_x t_ctr t_seal t_open t_mask.
+Proof.
+  constructor.
+  - intros a pa ra. unfold t_sbm. destruct (nth 0 a 0 =? 7); [discriminate|]. intros [= <- <-].
+    split; [apply t_mask_length|]. unfold t_mask. rewrite nth31_upd31 by apply pad32_length.
+    unfold clear_hi. change 63 with (N.ones 6). rewrite N.land_ones. apply N.mod_lt. discriminate.
+  - intros a pa ra. unfold t_sbm. destruct (nth 0 a 0 =? 7); [discriminate|]. intros [= <- <-]. reflexivity.
+  - intros a pa ra k. unfold t_sbm. destruct (nth 0 a 0 =? 7); [discriminate|]. intros [= <- <-].
+    unfold t_x. rewrite xor_bytes_comm. reflexivity.
+  - intros k iv m. unfold t_ctr. rewrite map_map. rewrite <- (map_id m) at 2. apply map_ext.
+    intros b. rewrite <- N.lxor_assoc, N.lxor_nilpotent. apply N.lxor_0_l.
+  - intros k n m. unfold t_open, t_seal. rewrite blen_app.
+    assert (E : blen (repeat (nth 0 k 0) 16) = 16) by reflexivity. rewrite E.
+    destruct (blen m + 16 <? 16) eqn:H; [lia|]. replace (blen m + 16 - 16) with (blen m) by lia.
+    rewrite take_app_exact by reflexivity. reflexivity.
+  - intros k n m. unfold t_seal. rewrite blen_app. reflexivity.
+Qed.
+
+Definition t_rand : obf_rand := {| or_cands := [[7; 1]; [9; 9; 9]]; or_byte := 200 |}.   (* first candidate has no representative *)
+Example ex_ctr : exists c, ctr_obfuscate t_sbm t_x t_sha t_ctr t_rand [1; 2; 3] (t_mask [5; 5]) = Some c /\
+                           ctr_reveal t_r2p t_x t_sha t_ctr c [5; 5] = Some [1; 2; 3] /\ blen c = 35 /\ nth 31 c 0 = 192.
+Proof. eexists. repeat split; vm_compute; reflexivity. Qed.
+Example ex_gcm : exists c, gcm_obfuscate t_sbm t_x t_sha t_seal t_rand [] (t_mask [5; 5]) = Some c /\
+                           gcm_reveal t_r2p t_x t_sha t_open c [5; 5] = Some [] /\ blen c = 48.
+Proof. eexists. repeat split; vm_compute; reflexivity. Qed.
+Example ex_header_fresh :
+  obf_header t_sbm t_rand <> obf_header t_sbm {| or_cands := [[9; 9; 9]]; or_byte := 100 |}.
+Proof. vm_compute. discriminate. Qed.
